@@ -358,6 +358,41 @@ def big_audio(ctx, tmpdir):
     check_run(ctx, dict(case, v=case["v"]), data, res, expected, tmpdir)
 
 
+def sentinel_blocks(ctx, tmpdir, with_stop=False):
+    """audio blocks whose CONTENT is the text of an internal message ("STOP_PROCESSING", "None", ...): they are audio."""
+    import random as _random
+
+    rng = ctx.rng("sentinel-blocks")
+    for text in (b"STOP_PROCESSING", b"STOP_PROCESSING", b"None", b"\x00STOP"):
+        channels = rng.choice([c for c in (1, 3, 5) if len(text) % c == 0] or [1])
+        block = len(text) // channels
+        case = P.random_pipeline_case(rng, max_windows=10, want_saver=True)
+        nb = rng.randint(12, 30)
+        case.update(rate=1500, width=1, channels=channels, block=block, w=block / 1500, partial=0, uc=None, thr=20.0, random_pcm=True,
+                    min_len=1, max_len=rng.choice((2, 5)), max_sil=rng.choice((0, 1)), drop=False, strict=False, v=[1] * nb,
+                    observers=["joiner", "regionsaver", "rec"], observer_timeouts=[0.2, 0.0005, 0.2], silence=rng.choice((0, 0.01)),
+                    stop=None, line_p=0.0, strategy=rng.choice(("uniform", "sticky", "pct")))
+        case.pop("hop", None)
+        case["saver"] = {"cache_size_sec": rng.choice((0.5, 0.0001, 1000.0))}
+        r2 = _random.Random(rng.getrandbits(32))
+        blocks = [bytes(r2.choice((0, 1, 60, 90, 120, 200)) for _ in range(len(text))) for _ in range(nb)]
+        for k in r2.sample(range(nb), 3):
+            blocks[k] = text
+        blocks[-1] = text  # also as the very last block
+        data = b"".join(blocks)
+        if with_stop:
+            case["stop"] = {"after_reads": rng.randint(nb // 2, nb), "extra_steps": rng.choice((0, 2))}
+        expected = P.split_reference(data, case) if not with_stop else None
+        P.clean_dir(tmpdir)
+        res = P.run_pipeline(case, data, tmpdir)
+        ctx.count("runs_with_blocks_that_look_like_internal_messages")
+        ctx.case(stable_hash(["sentinel", text.hex(), channels, res.sched.decisions[:100]]), True)
+        if with_stop:
+            yield case, data, res
+        else:
+            check_run(ctx, dict(case, data_hex=data.hex()), data, res, expected, tmpdir)
+
+
 def export_cases(ctx, tmpdir):
     """(a) raw export of a stream longer than 2**20 frames; (b) a target format nobody can encode here: the wav that was
     written must survive the workers (export_audio() warns, objects are dropped and collected)."""
@@ -526,6 +561,9 @@ def run_shard(ctx):
             export_cases(ctx, tmpdir)
         if ctx.shard == 6 or (ctx.tier == "thorough" and ctx.shard in (8, 9)):
             timeout_marathon(ctx, tmpdir)
+        if ctx.shard in (2, 11) or ctx.tier == "thorough":
+            for _ in sentinel_blocks(ctx, tmpdir):
+                pass
         two_pipelines_at_once(ctx, tmpdir)
         if ctx.shard in (4, 9) or ctx.tier == "thorough":
             for _ in range(1 if ctx.tier == "quick" else 6):
@@ -548,7 +586,7 @@ def inconclusive(merged, tier):
     c = merged["counters"]
     need = ["scheduled_runs", "saver_runs", "blocks_checked", "joiner_files_checked", "joiner_files_with_zero_events",
             "region_dirs_checked", "region_files_checked", "runs_on_empty_stream", "runs_on_event_free_stream", "runs_with_a_stop", "runs_with_short_reads",
-            "big_audio_runs", "saver_runs_over_an_overlapping_reader", "line_mode_runs", "instruction_mode_runs", "all_module_line_mode_runs", "timeouts_fired", "systematic_schedules", "systematic_pipelines_fully_enumerated", "stress_runs", "stress_files_checked", "huge_backlog_runs", "raw_export_runs", "unencodable_export_runs", "two_pipeline_runs", "timeout_marathon_runs"]
+            "big_audio_runs", "runs_with_blocks_that_look_like_internal_messages", "saver_runs_over_an_overlapping_reader", "line_mode_runs", "instruction_mode_runs", "all_module_line_mode_runs", "timeouts_fired", "systematic_schedules", "systematic_pipelines_fully_enumerated", "stress_runs", "stress_files_checked", "huge_backlog_runs", "raw_export_runs", "unencodable_export_runs", "two_pipeline_runs", "timeout_marathon_runs"]
     out = [f"monitor never observed {k}" for k in need if c.get(k, 0) == 0]
     if c.get("max:queue_depth", 0) < 16384:
         out.append("the writer never lagged by more than 16384 blocks")
